@@ -267,6 +267,36 @@ func VerifC01Honest() {
 			vAssert(err != nil, "C01.honest-sealed-wrong-root-rejected")
 		}
 	}
+	// forks: two attenuations of the same prefix are both genuine tokens, fresh, reloaded and sealed
+	for j := 0; j <= N; j++ {
+		parent := w.tokens[j]
+		var kids []*Biscuit
+		for k := 0; k < 2; k++ {
+			bb := parent.CreateBlock()
+			bb.AddFact(Fact{Predicate{Name: "kid", IDs: []Term{Integer(k)}}})
+			kid, err := parent.Append(w.rng, bb.Build())
+			vAssert(err == nil, "C01.fork-append")
+			if err == nil {
+				kids = append(kids, kid)
+			}
+		}
+		for _, kid := range kids {
+			_, err := kid.AuthorizerFor(WithSingularRootPublicKey(w.rootPub))
+			vAssert(err == nil, "C01.fork-accepted")
+			if data, serr := kid.Serialize(); serr == nil {
+				if r, uerr := Unmarshal(data); uerr == nil {
+					_, err = r.AuthorizerFor(WithSingularRootPublicKey(w.rootPub))
+					vAssert(err == nil, "C01.fork-reloaded-accepted")
+				} else {
+					vAssert(false, "C01.fork-unmarshal")
+				}
+			}
+			if s, serr := kid.Seal(w.rng); serr == nil {
+				_, err = s.AuthorizerFor(WithSingularRootPublicKey(w.rootPub))
+				vAssert(err == nil, "C01.fork-sealed-accepted")
+			}
+		}
+	}
 	vCover("done")
 }
 
